@@ -531,8 +531,11 @@ def _here(text: str) -> str:
 
 class K3Case:
     def __init__(self, name: str, actor: str = 'command', act=None, defs=(), setup_stdin: Optional[str] = None,
-                 cd: bool = False, runs=(), outcome: bool = False, interp: Pgm = INTERP, probes=(), files=()):
+                 cd: bool = False, runs=(), outcome: bool = False, interp: Pgm = INTERP, probes=(), files=(),
+                 streams: bool = True, exit_code: Optional[int] = None):
         self.name, self.actor, self.act, self.defs = name, actor, act, list(defs)
+        self.streams = streams  # False: no `stdout` / `stderr` assertion on the output of the action to check
+        self.exit_code = exit_code  # the literal operand of `exit-code ==` (default 0; `outcome`: the placeholder K0)
         self.setup_stdin, self.cd, self.runs, self.outcome, self.interp = setup_stdin, cd, list(runs), outcome, interp
         self.files = list(files)  # [setup]: names of text sources;  `file f<i>.txt = TEXT-SOURCE`
         self.probes = list(probes)  # [assert]: (kind in {'exit-code', 'stdout', 'stderr'}, Pgm):  `kind -from PROGRAM MATCHER`
@@ -569,9 +572,9 @@ class K3Case:
         for name, p in self.defs:
             lines.append('def program %s = %s' % (name, p.text()))
         for i, t in enumerate(self.files):
-            lines.append('file f%d.txt = %s' % (i, sp.T[t][0]))
+            lines.append('file f%d.txt = %s' % (i, sp.text_source(t)[0]))
         if self.setup_stdin is not None:
-            lines.append('stdin = ' + sp.T[self.setup_stdin][0])
+            lines.append('stdin = ' + sp.text_source(self.setup_stdin)[0])
         lines += [self._run_line(r) for r in self.runs if r[0] == 'setup']
         lines.append('[act]')
         if self.actor == 'command':
@@ -589,8 +592,10 @@ class K3Case:
         if self.outcome:
             lines.append('exit-code == K0')
         else:
-            lines.append('exit-code == 0')
-        if self.actor == 'null':
+            lines.append('exit-code == %d' % (self.exit_code or 0))
+        if not self.streams:
+            pass
+        elif self.actor == 'null':
             lines += ['stdout is-empty', 'stderr is-empty']
         else:
             d = self.act_den()
@@ -598,7 +603,7 @@ class K3Case:
             lines += ['stdout equals ' + _here(out), 'stderr equals ' + _here(ERR0)]
         lines += [self._probe_lines(p) for p in self.probes]
         for i, t in enumerate(self.files):
-            value = sp.ev(sp.T[t][1], sp.Env(['', '', S2_K3, S3_K3]))
+            value = sp.ev(sp.text_source(t)[1], sp.Env(['', '', S2_K3, S3_K3]))
             if value.endswith('\n'):
                 lines.append('contents f%d.txt : equals %s' % (i, _here(value)))
             else:
@@ -618,14 +623,14 @@ class K3Case:
                     out.extend(sp.procs_of(sp.denote(r[2], defs), 'run%d' % i, env, cwd=cwd))
 
         for t in self.files:
-            if sp.T[t][2] is not None:
-                out.append(sp.gen_proc(sp.T[t][2], env, cwd))
+            if sp.text_source(t)[2] is not None:
+                out.append(sp.gen_proc(sp.text_source(t)[2], env, cwd))
         of_runs('setup')
         extra_stdin, extra_gens = [], []
         if self.setup_stdin is not None:
-            extra_stdin = [sp.T[self.setup_stdin][1]]
-            if sp.T[self.setup_stdin][2] is not None:
-                extra_gens = [sp.T[self.setup_stdin][2]]
+            extra_stdin = [sp.text_source(self.setup_stdin)[1]]
+            if sp.text_source(self.setup_stdin)[2] is not None:
+                extra_gens = [sp.text_source(self.setup_stdin)[2]]
         if self.actor == 'command':
             out.extend(sp.procs_of(self.act_den(), 'atc', env, extra_stdin, extra_gens, cwd, setup_stdin_first))
         elif self.actor == 'file':
@@ -1011,6 +1016,91 @@ def k3_act_here_doc(place: int, b: int) -> bool:
         if not ok and not ob.twin():
             _explain(run, expected)
     return ob.post(ok)
+
+
+# ---- quoted option-like and reserved words: a quoted token is a plain word, wherever an argument list or a text is written
+QUOTED_POSITIONS = ('the only argument', 'first (before other arguments)', 'between other arguments', 'last')
+QUOTED_LAYOUTS = ('command-line-actor', 'file-actor', 'source-actor')
+FILE_NAME_ATOM = ('f.txt', [[sp.C('f.txt')]])  # an unquoted word that happens to be the name of a file in the home directory
+
+REAL_K3_QUOTED = (
+    'exactly_lib.impls.types.program.parse.parse_arguments._ElementParser',
+    'exactly_lib.impls.types.program.parse.parse_executable_file_path._Parser',
+    'exactly_lib.impls.types.string_source.parse._StringSourceParserWoParens',
+    'exactly_lib.impls.types.string_.parse_rich_string.SymbolNameOrStringRichStringParser',
+    'exactly_lib.util.parse.token_matchers.is_option',
+    'exactly_lib.util.parse.token_matchers._Equals',
+    'exactly_lib.section_document.element_parsers.token_stream_parser.TokenParser.consume_optional_option',
+)
+
+
+def _quoted_args(atom, pos: int) -> list:
+    return ([atom], [atom, FILE_NAME_ATOM, 'plain2'], ['plain', atom, FILE_NAME_ATOM], ['plain', 'plain2', atom])[pos]
+
+
+def _quoted_case(layout: str, w: int, q: int, pos: int, oracle_bug=None) -> K3Case:
+    """One test case in which the quoted word stands at position `pos` of EVERY argument list and is the text of
+    every string text source.  The reference denotation: the word itself, as one argument / as the text."""
+    word, quote = sp.QUOTED_WORDS[w], sp.QUOTES[q]
+    atom = sp.quoted_atom(word, quote)
+    if oracle_bug == 'quoted-word-is-syntax':
+        atom = (atom[0], [])  # seeded oracle error: the quoted word expected to be consumed by the syntax (no argument)
+    args = _quoted_args(atom, pos)
+    text = sp.quoted_text_source(word, quote)
+    name = 'quoted/%s/%d/%d/%d' % (layout, w, q, pos)
+    if layout == 'command-line-actor':
+        # every program form ($ takes no argument list), definitions of program symbols and references to them,
+        # run / % in every phase, -from PROGRAM of the assertions, a program as text source
+        return K3Case(
+            name,
+            defs=[('P1', Pgm('file', 'exe', args, stdin=text)), ('P2', Pgm('ref', 'P1', args))],
+            act=Pgm('ref', 'P2', args, stdin=text),
+            setup_stdin=sp.generator_with_args('stdout', args),
+            runs=[('setup', 'run', Pgm('python', '', args, stdin=text), False),
+                  ('before-assert', '%', Pgm('sys', 'r1', args), False),
+                  ('assert', 'run', Pgm('ref', 'P1', args), False),
+                  ('cleanup', 'run', Pgm('sys', 'r3', args, stdin=sp.generator_with_args('stderr', args)), True)],
+            probes=[('exit-code', Pgm('sys', 'q', args)), ('stdout', Pgm('ref', 'P2', args)),
+                    ('stderr', Pgm('sys', 'q2', args, stdin=text))])
+    if layout == 'file-actor':
+        return K3Case(name, actor='file', interp=Pgm('file', 'exe', args), act=args, setup_stdin=text)
+    return K3Case(name, actor='source', interp=Pgm('python', '', args), setup_stdin=text,
+                  runs=[('before-assert', 'run', Pgm('sys', 'r1', args, stdin=sp.generator_with_args('stdout', args)), False)])
+
+
+def _pre_k3q(w, q, pos) -> bool:
+    return 0 <= w < len(sp.QUOTED_WORDS) and 0 <= q < len(sp.QUOTES) and 0 <= pos < len(QUOTED_POSITIONS)
+
+
+def k3_quoted_words(w: int, q: int, pos: int) -> bool:
+    """
+    pre: _pre_k3q(w, q, pos)
+    post: _
+    """
+    w_ = ob.concrete_int(w, 0, len(sp.QUOTED_WORDS) - 1)
+    q_ = ob.concrete_int(q, 0, len(sp.QUOTES) - 1)
+    pos_ = ob.concrete_int(pos, 0, len(QUOTED_POSITIONS) - 1)
+    with L.no_tracing():
+        case = _quoted_case(ob.case()['layout'], w_, q_, pos_, ob.case().get('oracle_bug'))
+        child = L.Child(out=OUT0, err=ERR0, code=0, read_file_arg=(-1 if case.actor == 'source' else None))
+        try:
+            run, expected = _run_whole(case, 'v0', 'v1', child)
+        except Exception as e:  # the text is not accepted by the parser
+            if not ob.twin():
+                _explain_text('rejected by the parser: %r\n%s' % (e, case.text()))
+            return ob.post(False)
+        ok = _procs_match(expected, run.calls, _source_text()) and run.status == 'PASS'
+        if not ok and not ob.twin():
+            _explain(run, expected)
+    return ob.post(ok)
+
+
+def _explain_text(text: str):
+    import os
+    import sys
+    if 'crosshair' in sys.modules and not os.environ.get('VSYM_C10_DEBUG'):
+        return
+    sys.stderr.write(text + '\n')
 
 
 def _k3x_cases() -> List[K3Case]:
